@@ -137,6 +137,7 @@ type VC struct {
 	heldOnEntry map[string]bool
 	lockChecksOff bool
 	nquant int
+	nameSigOverride *types.Signature
 	immutable map[string]bool
 	merges [][]string
 	pendingAxioms []string
